@@ -20,7 +20,8 @@ IsRsa(kk) == RsaBits(kk) > 0
 IsEcdsaSignerKey(kk) == kk \in {"p224", "p256", "p384", "p521", "p256-opaque"}
 \* public keys: a valid point on a curve that crypto/ecdh supports (P-224 is not supported there)
 IsEcdsaVerifierKey(kk) == kk \in {"p256", "p384", "p521"}
-IsEcdsaTyped(kk) == kk \in {"p224", "p256", "p384", "p521", "offcurve", "infinity"}
+\* offcurve: (x, y+1) of a valid P-256 key; offcurve2*: (x, y+2) of the valid key of that curve (same x, same parity of y)
+IsEcdsaTyped(kk) == kk \in {"p224", "p256", "p384", "p521", "offcurve", "offcurve2", "offcurve2-p384", "offcurve2-p521", "infinity"}
 IsEd(kk) == kk \in {"ed", "ed-opaque"}
 
 \* "ok" | "ErrAlgorithmNotSupported" | "ErrInvalidPubKey" | "err" (an error whose class the property does not fix)
